@@ -86,6 +86,17 @@ REQUIRED_COUNTERS = (['conv:' + c for c in CONVERTERS] + ['scorer:' + s for s in
                         'shared_rank', 'truncated', 'empty_ballot', 'overlap_AB', 'shared_image',
                         'fraction_weight', 'same_universe', 'rounded_disjoint', 'rounded_overlap',
                         'borda_too_many_ranks', 'duplicate_candidate', 'util', 'decimal_weight', 'subset_depth:2', 'subset_depth:3']
+                     + ['names:' + n for n in ['str', 'int0', 'empty0', 'person']]
+                     + ['num:' + n for n in ['auto', 'frac', 'dec', 'dec_all', 'float']]
+                     + ['falsy_zero_count', 'decimal7', 'big_weight', 'big_score', 'close_scores', 'zero_weight2',
+                        'order:asc', 'order:desc', 'sibling_first', 'district_named_like_candidate', 'error_then_valid',
+                        'empty_subset', 'unmapped_candidate', 'affiliation:membership', 'affiliation:candidacy_for',
+                        'borda_base_nondefault', 'geometric_base_nondefault', 'geometric_base_10',
+                        'sequence_shorter_than_ballot', 'modified_borda_mixed_lengths',
+                        'unscored_negative', 'unscored_zero', 'unscored_above_scores',
+                        'shared_rank_3plus', 'candidate_only_in_shared_ranks']
+                     + ['independents:' + m for m in ['aggregate', 'keep', 'ignore', 'error']]
+                     + ['roundm:' + m for m in ROUND_METHODS + ['default']]
                      + ['round:' + m for m in ROUND_METHODS])
 RULE = ('2-5 candidates (5-8 in the `big` share) with multi-character names; ranked ballots with truncation, shared ranks (incl. one-element and empty '
         'sets), repeated candidates and the empty ballot; approval and score ballots incl. empty ones; weights from small integers, '
@@ -124,12 +135,28 @@ def num(s):
     return Fraction(s)
 
 
-def py_num(s, dec=False):
+NUM_MODES = ['auto', 'frac', 'dec', 'dec_all', 'float']
+NAME_KINDS = ['str', 'int0', 'empty0', 'person']     # own equivalent of common.Names naming modes
+
+
+def py_num(s, mode='auto'):
+    """protocol number -> python number of the case's numeric type.
+    auto: int / Fraction; frac: always Fraction (also Fraction(0), Fraction(3)); dec: int / Decimal;
+    dec_all: always Decimal (also Decimal('0')); float: int / dyadic float.  Values the type cannot hold exactly
+    stay int / Fraction (the generator only picks a mode when every vote count fits)."""
+    if mode is True:
+        mode = 'dec'
     f = Fraction(s)
+    if mode == 'frac':
+        return f
+    if mode in ('dec', 'dec_all') and _dec_ok(f):
+        if f.denominator == 1 and mode == 'dec':
+            return int(f)
+        return Decimal(f.numerator) / Decimal(f.denominator)
+    if mode == 'float' and _float_ok(f) and f.denominator != 1:
+        return float(f)
     if f.denominator == 1:
         return int(f)
-    if dec and _dec_ok(f):
-        return Decimal(f.numerator) / Decimal(f.denominator)
     return f
 
 
@@ -138,10 +165,17 @@ def _dec_ok(f):
     for q in (2, 5):
         while d % q == 0:
             d //= q
-    return d == 1 and len(str(f.denominator)) < 10
+    return d == 1 and len(str(f.denominator)) < 10 and abs(f.numerator) < 10 ** 17
+
+
+def _float_ok(f):
+    d = f.denominator
+    return d & (d - 1) == 0 and d <= 2 ** 12 and abs(f.numerator) < 2 ** 36
 
 
 def ns(x):
+    if isinstance(x, float):
+        x = Fraction(x)         # only dyadic floats are ever handed in: exact
     return num_str(x)
 
 
@@ -150,8 +184,10 @@ def ns(x):
 
 class Ctx:
     """per-case python objects for ids (Person / PoliticalParty objects for the party converters)"""
-    def __init__(self, spec, dec=False):
-        self.dec = dec
+    def __init__(self, spec, dec=False, names='str', dclash=False):
+        self.dec = 'dec' if dec is True else (dec or 'auto')
+        self.names = names
+        self.dclash = dclash
         self.persons = {}
         self.parties = {}
         self.back = {}
@@ -171,10 +207,21 @@ class Ctx:
             self.back[id(self.parties[n])] = {'party': n}
         return self.parties[n]
 
+    def dname(self, d):
+        # 'dclash': constituencies are named exactly like candidates
+        return cname(d) if self.dclash else dname(d)
+
     def cand(self, i):
-        if not self.use_persons:
+        if not self.use_persons and self.names != 'person':
+            if self.names == 'int0':
+                return i
+            if self.names == 'empty0' and i == 0:
+                return ''
             return cname(i)
         import votelib.candidate as vcand
+        if i not in self.persons and not self.use_persons:
+            self.persons[i] = vcand.Person(f'person{i}')
+            self.back[id(self.persons[i])] = i
         if i not in self.persons:
             p = self.party(self.aff[i]) if i in self.aff else None
             other = self.party(99)
@@ -214,43 +261,44 @@ def key_py(kind, k, ctx):
     if kind == 'approval':
         return frozenset(ctx.cand(c) for c in k['set'])
     if kind == 'score':
-        return frozenset((ctx.cand(c), py_num(s)) for c, s in k['set'])
+        return frozenset((ctx.cand(c), py_num(s, ctx.dec)) for c, s in k['set'])
     raise ValueError(kind)
 
 
 def deep_py(t, depth, ctx):
     if depth == 0:
         return {ctx.cand(c): py_num(w, ctx.dec) for c, w in t}
-    return {dname(d): deep_py(c, depth - 1, ctx) for d, c in t}
+    return {ctx.dname(d): deep_py(c, depth - 1, ctx) for d, c in t}
 
 
 def prof_py(kind, prof, ctx, depth=0):
     if kind == 'deep':
         return deep_py(prof, depth, ctx)
     if kind == 'nested':
-        return {dname(d): {ctx.cand(c): py_num(w, ctx.dec) for c, w in dv} for d, dv in prof}
+        return {ctx.dname(d): {ctx.cand(c): py_num(w, ctx.dec) for c, w in dv} for d, dv in prof}
     return {key_py(kind, k, ctx): py_num(w, ctx.dec) for k, w in prof}
 
 
-def enc_key(k, ctx):
-    """python key -> protocol"""
+def enc_key(k, ctx, in_set=False):
+    """python key -> protocol.  A tuple inside a frozenset is a (candidate, score) pair; any other tuple is a
+    ranking or an ordered pair of candidates (so that int candidates are not taken for numbers)."""
     if k is None:
         return None
+    if isinstance(k, bool):
+        raise TypeError(f'cannot encode key {k!r}')
+    if isinstance(k, int):
+        return k                                    # naming mode int0
     if isinstance(k, str):
-        return int(k[1:])
+        return 0 if k == '' else int(k[1:])
     if isinstance(k, (frozenset, set)):
-        return {'set': sorted((enc_key(x, ctx) for x in k), key=jkey)}
+        return {'set': sorted((enc_key(x, ctx, True) for x in k), key=jkey)}
     if isinstance(k, tuple):
-        return [enc_elem(x, ctx) for x in k]
+        if in_set and len(k) == 2:
+            return [enc_key(k[0], ctx), ns(k[1])]
+        return [enc_key(x, ctx) for x in k]
     if id(k) in ctx.back:
         return ctx.back[id(k)]
     raise TypeError(f'cannot encode key {k!r}')
-
-
-def enc_elem(x, ctx):
-    if isinstance(x, (int, Fraction, Decimal)) and not isinstance(x, bool):
-        return ns(x)
-    return enc_key(x, ctx)
 
 
 def enc_dict(d, ctx):
@@ -313,7 +361,7 @@ def build_scorer(s):
     if n == 'FixedTop':
         return rs.FixedTop(s['top'])
     if n == 'SequenceBased':
-        return rs.SequenceBased([py_num(x) for x in s['sequence']])
+        return rs.SequenceBased([py_num(x, s.get('_num', 'auto')) for x in s['sequence']])
     raise ValueError(n)
 
 
@@ -343,15 +391,15 @@ def build_conv(spec, ctx):
     if c == 'RankedToApprovalVotes':
         return vc.RankedToApprovalVotes()
     if c == 'RankedToPositionalVotes':
-        sc = dict(spec['scorer'], defaults=spec.get('defaults'))
+        sc = dict(spec['scorer'], defaults=spec.get('defaults'), _num='frac' if ctx.dec == 'frac' else 'auto')
         return vc.RankedToPositionalVotes(build_scorer(sc))
     if c == 'RankedToCondorcetVotes':
         return vc.RankedToCondorcetVotes(**_kw(spec, unranked_at_bottom=(spec['unranked_at_bottom'], True)))
     if c == 'ScoreToRankedVotes':
         uv = spec.get('unscored_value')
-        return vc.ScoreToRankedVotes(**_kw(spec, unscored_value=(None if uv is None else py_num(uv), None)))
+        return vc.ScoreToRankedVotes(**_kw(spec, unscored_value=(None if uv is None else py_num(uv, ctx.dec), None)))
     if c == 'ScoreToApprovalVotesThreshold':
-        return vc.ScoreToApprovalVotesThreshold(py_num(spec['threshold']))
+        return vc.ScoreToApprovalVotesThreshold(py_num(spec['threshold'], ctx.dec))
     if c == 'InvertedSimpleVotes':
         return vc.InvertedSimpleVotes()
     if c == 'InvertedApprovalVotes':
@@ -387,12 +435,12 @@ def build_conv(spec, ctx):
 def impl(case):
     if case['op'] == 'util':
         import votelib.util as vu
-        ctx = Ctx({'c': 'none'})
+        ctx = Ctx({'c': 'none'}, names=case.get('names', 'str'))
         votes = prof_py('ranked', case['votes'], ctx)
         return guarded(lambda: {
             'all_ranked_candidates': [enc_key(c, ctx) for c in vu.all_ranked_candidates(votes)],
             'all_rankings': [[enc_key(c, ctx), r, ns(n)] for c, r, n in vu.all_rankings(votes)]})
-    ctx = Ctx(case['conv'], bool(case.get('dec')))
+    ctx = _ctx(case)
     try:
         conv = build_conv(case['conv'], ctx)
     except Exception as e:      # noqa
@@ -401,8 +449,60 @@ def impl(case):
     def one(prof):
         votes = prof_py(case['kind'], prof, ctx, case.get('depth', 0))
         return guarded(lambda: enc_dict(conv.convert(votes), ctx))
-    return {'A': one(case['A']), 'B': one(case['B']), 'AB': one(case['AB']),
-            'singles': [one(s) for s in case['singles']]}
+    if case.get('warm'):
+        # a differently configured object of the same class is used first (class- or module-level state)
+        try:
+            sib = build_conv(sibling(case['conv']), ctx)
+            guarded(lambda: sib.convert(prof_py(case['kind'], case['AB'], ctx, case.get('depth', 0))))
+        except Exception:      # noqa
+            pass
+    # ONE converter object serves all conversions of the case, in the order the case asks for
+    res = {}
+    order = {'desc': ['AB', 'A', 'B', 'singles'], 'asc': ['singles', 'B', 'A', 'AB']}.get(case.get('order'), ['A', 'B', 'AB', 'singles'])
+    for nm in order:
+        res[nm] = [one(s) for s in case['singles']] if nm == 'singles' else one(case[nm])
+    return {'A': res['A'], 'B': res['B'], 'AB': res['AB'], 'singles': res['singles']}
+
+
+def _ctx(case):
+    return Ctx(case['conv'], case.get('num') or bool(case.get('dec')), case.get('names', 'str'), bool(case.get('dclash')))
+
+
+def sibling(spec):
+    """the same converter class configured differently"""
+    s = json.loads(json.dumps(spec))
+    c = s['c']
+    if c == 'Chain':
+        s['cs'] = [sibling(x) for x in s['cs']]
+    elif c == 'ApprovalToSimpleVotes':
+        s['split'] = not s['split']
+    elif c == 'RankedToFirstNPreferences':
+        s['n'] = s['n'] + 1
+    elif c == 'RankedToPositionalVotes':
+        sc = s['scorer']
+        if sc['s'] in ('Borda', 'Geometric'):
+            sc['base'] = sc['base'] + 1
+        elif sc['s'] == 'FixedTop':
+            sc['top'] = sc['top'] + 2
+        elif sc['s'] == 'SequenceBased':
+            sc['sequence'] = ['7'] + sc['sequence'][::-1]
+        else:
+            s['scorer'] = {'s': 'Dowdall' if sc['s'] == 'ModifiedBorda' else 'ModifiedBorda'}
+    elif c == 'RankedToCondorcetVotes':
+        s['unranked_at_bottom'] = not s['unranked_at_bottom']
+    elif c == 'ScoreToRankedVotes':
+        s['unscored_value'] = '3' if s.get('unscored_value') is None else None
+    elif c == 'ScoreToApprovalVotesThreshold':
+        s['threshold'] = ns(Fraction(s['threshold']) + 1)
+    elif c in ('IndividualToPartyVotes', 'GroupVotesByParty'):
+        s['independents'] = 'keep' if s['independents'] != 'keep' else 'ignore'
+    elif c == 'SubsettedVotes':
+        s['subset'] = [0] if s['subset'] != [0] else [1]
+    elif c == 'RoundedVotes':
+        s['decimals'] = s['decimals'] + 1
+        s['round_method'] = 'ROUND_DOWN'
+    s.pop('defaults', None)
+    return s
 
 
 # ------------------------------------------------------------------------------------------------
@@ -917,8 +1017,8 @@ def nontrivial(case, obs):
 
 def describe(case):
     if case['op'] == 'util':
-        return f"util.all_rankings({prof_py('ranked', case['votes'], Ctx({'c': 'none'}))!r})"
-    ctx = Ctx(case['conv'], bool(case.get('dec')))
+        return f"util.all_rankings({prof_py('ranked', case['votes'], Ctx({'c': 'none'}, names=case.get('names', 'str')))!r})"
+    ctx = _ctx(case)
     dp = case.get('depth', 0)
     return (f"{json.dumps(case['conv'])}.convert on A={prof_py(case['kind'], case['A'], ctx, dp)!r}, "
             f"B={prof_py(case['kind'], case['B'], ctx, dp)!r}, A+B={prof_py(case['kind'], case['AB'], ctx, dp)!r}")
@@ -1011,18 +1111,19 @@ def finish(conv, kind, A, B, tags, dec=False):
             ws = [kv[1] for x in (A, B, AB) for _, kv in deep_leaves(x, depth)]
         else:
             ws = [w for _, w in A + B + AB] if kind != 'nested' else [w for _, dv in A + B + AB for _, w in dv]
-        if all(Fraction(w).denominator == 1 or _dec_ok(Fraction(w)) for w in ws) and \
-                any(Fraction(w).denominator != 1 for w in ws):
+        if all(_dec_ok(Fraction(w)) for w in ws) and any(Fraction(w).denominator != 1 for w in ws):
             case['dec'] = True
             case['_tags'].append('decimal_weight')
     return tag_case(case)
 
 
 def tag_case(case):
-    tags = set(case.get('_tags', []))
+    tags = set(t for t in case.get('_tags', []) if not t.startswith(('scorer:', 'roundm:', 'independents:', 'subsetter:')))
     spec, kind = case['conv'], case['kind']
     tags.add('conv:' + spec['c'])
     for s in _flat(spec):
+        if s['c'] == 'RoundedVotes':
+            tags.add('roundm:' + s.get('round_method', 'default'))
         if s['c'] == 'RankedToPositionalVotes':
             tags.add('scorer:' + s['scorer']['s'])
         if s['c'] == 'SubsettedVotes':
@@ -1097,9 +1198,13 @@ def rnd_weight(rng, mode='mixed'):
         return '0'
     if r < 0.92:
         return ns(Fraction(rng.randint(1, 9), rng.choice([2, 3, 4, 6])))
-    if r < 0.96:
+    if r < 0.955:
         return ns(-rng.randint(1, 3))
-    return ns(10 ** rng.choice([12, 20]) + rng.randint(0, 3))
+    if r < 0.97:
+        return ns(Fraction(rng.randint(1, 9 * 10 ** 7), 10 ** 7))            # 7 decimals
+    if r < 0.985:
+        return ns(10 ** rng.choice([9, 12]) + rng.randint(0, 3))
+    return ns(rng.choice([2 ** 53, 2 ** 53 + 1, 2 ** 53 - 1, 10 ** 18 + 1, 10 ** 30, 10 ** 400 + 7]))
 
 
 def rnd_ranked(rng, m, wild=True):
@@ -1152,7 +1257,15 @@ def rnd_score(rng, m):
     if rng.random() < 0.06:
         return {'set': []}
     cs = rng.sample(range(m), rng.randint(1, m))
-    vals = [ns(rng.choice([0, 1, 2, 3, 3, 5, Fraction(1, 2), -1])) for _ in cs]
+    pool = [0, 1, 2, 3, 3, 5, Fraction(1, 2), -1]
+    r = rng.random()
+    if r < 0.06:
+        pool = [2 ** 53, 2 ** 53 + 1, 2 ** 53 - 1, 10 ** 18, 10 ** 18 + 1]              # distinct only as exact integers
+    elif r < 0.12:
+        pool = [1, Fraction(10 ** 12 + 1, 10 ** 12), Fraction(10 ** 12 - 1, 10 ** 12), 2]   # differ in the 12th digit
+    elif r < 0.2:
+        pool = [0, 1, Fraction(5, 4), Fraction(1234567, 10 ** 7), Fraction(1, 8), 3]        # decimal / dyadic friendly
+    vals = [ns(rng.choice(pool)) for _ in cs]
     return {'set': sorted([[c, v] for c, v in zip(cs, vals)])}
 
 
@@ -1197,7 +1310,7 @@ def rnd_scorer(rng, name=None):
     if name == 'Borda':
         return {'s': 'Borda', 'base': rng.choice([1, 1, 0, 2, -1])}
     if name == 'Geometric':
-        return {'s': 'Geometric', 'base': rng.choice([2, 2, 3, 1, 0] if rng.random() < 0.2 else [2, 3])}
+        return {'s': 'Geometric', 'base': rng.choice([2, 2, 3, 1, 0] if rng.random() < 0.2 else [2, 3, 10, 10])}
     if name == 'FixedTop':
         return {'s': 'FixedTop', 'top': rng.choice([0, 1, 2, 3, 5])}
     if name == 'SequenceBased':
@@ -1225,9 +1338,10 @@ def _rnd_spec(rng, name, m):
     if name in ('RankedToFirstPreference', 'RankedToPresenceCounts', 'RankedToApprovalVotes'):
         return {'c': name}, 'ranked'
     if name == 'ScoreToRankedVotes':
-        return {'c': name, 'unscored_value': None if rng.random() < 0.4 else ns(rng.choice([0, 0, 1, 2, -1, Fraction(1, 2)]))}, 'score'
+        return {'c': name, 'unscored_value': None if rng.random() < 0.4 else
+                ns(rng.choice([0, 0, 1, 2, -1, -3, Fraction(1, 2), 7, 10 ** 18 + 2]))}, 'score'
     if name == 'ScoreToApprovalVotesThreshold':
-        return {'c': name, 'threshold': ns(rng.choice([0, 1, 2, 3, Fraction(1, 2), 4]))}, 'score'
+        return {'c': name, 'threshold': ns(rng.choice([0, 1, 2, 3, Fraction(1, 2), 4, -1, Fraction(5, 4), 2 ** 53 + 1, 1]))}, 'score'
     if name == 'InvertedSimpleVotes':
         return {'c': name}, 'simple'
     if name == 'InvertedApprovalVotes':
@@ -1357,6 +1471,11 @@ def gen_case(rng, name=None, tags=(), big=False):
     names = [s['c'] for s in _flat(spec)]
     if any(nm in UNIVERSE_DEPENDENT for nm in names) and rng.random() < 0.8:
         cover(rng, kind, A, B, m)
+    if 'RoundedVotes' in names:
+        def cap(w):
+            return w if abs(Fraction(w)) < 10 ** 20 else ns(10 ** 12 + 3)
+        A = [[k, cap(w)] for k, w in A]
+        B = [[k, cap(w)] for k, w in B]
     if 'RoundedVotes' in names and spec['c'] == 'RoundedVotes':
         # counts that sit exactly on a rounding tie, just beside it, and negative ones
         d = spec['decimals']
@@ -1374,6 +1493,293 @@ def gen_case(rng, name=None, tags=(), big=False):
         ka = {jkey(k) for k, _ in A}
         B = [e for e in B if jkey(e[0]) not in ka]
     return finish(spec, kind, A, B, tags, dec=rng.random() < 0.3)
+
+
+def _all_numbers(case):
+    """(vote counts, other numbers) of a case as Fractions"""
+    kind, depth = case['kind'], case.get('depth', 0)
+    ws, others = [], []
+    for nm in ('A', 'B', 'AB'):
+        x = case[nm]
+        if kind == 'deep':
+            ws += [Fraction(kv[1]) for _, kv in deep_leaves(x, depth)]
+        elif kind == 'nested':
+            ws += [Fraction(w) for _, dv in x for _, w in dv]
+        else:
+            ws += [Fraction(w) for _, w in x]
+            if kind == 'score':
+                others += [Fraction(sc) for k, _ in x for _, sc in k['set']]
+    return ws, others
+
+
+def num_mode_ok(case, mode):
+    if mode in ('auto', 'frac'):
+        return True
+    for s in _flat(case['conv']):
+        if not (s['c'] in DEC_OK or (s['c'] == 'ApprovalToSimpleVotes' and not s['split'])):
+            return False
+    ws, _ = _all_numbers(case)
+    ok = _dec_ok if mode in ('dec', 'dec_all') else (lambda f: f.denominator == 1 and abs(f) < 2 ** 40 or _float_ok(f))
+    if not all(ok(w) for w in ws):
+        return False
+    return mode == 'dec_all' or any(w.denominator != 1 for w in ws)
+
+
+def vary(case, rng, names=None, num=None, order=None, warm=None, dclash=None):
+    """naming mode of the candidates, numeric type of the counts, order of the calls on the one converter
+    object, a sibling object used first, constituencies named like candidates"""
+    if case['op'] != 'convert':
+        if names or rng.random() < 0.3:
+            case['names'] = names or rng.choice(NAME_KINDS[1:])
+            case['_tags'] = sorted(set(case['_tags']) | {'names:' + case['names']})
+        return case
+    tags = set(case['_tags'])
+    if case.get('dec') and not case.get('num'):
+        case['num'] = 'dec'
+    nm = names if names is not None else (rng.choice(NAME_KINDS[1:]) if rng.random() < 0.3 else 'str')
+    if nm != 'str':
+        case['names'] = nm
+    mode = num if num is not None else (rng.choice(NUM_MODES[1:]) if rng.random() < 0.35 else None)
+    if mode and num_mode_ok(case, mode):
+        case['num'] = mode
+        case.pop('dec', None)
+    od = order if order is not None else rng.choice([None, None, 'asc', 'desc'])
+    if od:
+        case['order'] = od
+    if warm if warm is not None else rng.random() < 0.2:
+        case['warm'] = True
+    if case['kind'] in ('nested', 'deep') and (dclash if dclash is not None else rng.random() < 0.3):
+        case['dclash'] = True
+    return retag(case)
+
+
+def retag(case):
+    tags = set(case['_tags'])
+    tags.add('names:' + case.get('names', 'str'))
+    tags.add('num:' + (case.get('num') or ('dec' if case.get('dec') else 'auto')))
+    tags.discard('decimal_weight')
+    if case.get('num') in ('dec', 'dec_all') or case.get('dec'):
+        tags.add('decimal_weight')
+    tags.add('order:' + case.get('order', 'default'))
+    if case.get('warm'):
+        tags.add('sibling_first')
+    if case.get('dclash'):
+        tags.add('district_named_like_candidate')
+    ws, others = _all_numbers(case)
+    mode = case.get('num') or 'auto'
+    if mode in ('frac', 'dec_all') and any(w == 0 for w in ws):
+        tags.add('falsy_zero_count')                 # Fraction(0) / Decimal('0')
+    if mode in ('dec', 'dec_all') and any(w.denominator >= 10 ** 7 for w in ws):
+        tags.add('decimal7')
+    if any(abs(w) >= 2 ** 53 for w in ws):
+        tags.add('big_weight')
+    if any(abs(x) >= 2 ** 53 for x in others):
+        tags.add('big_score')
+    if any(0 < abs(x - y) < Fraction(1, 10 ** 9) for x in set(others) for y in set(others)):
+        tags.add('close_scores')
+    if sum(1 for w in ws[:len(ws)] if w == 0) >= 2:
+        tags.add('zero_weight2')
+    spec, kind = case['conv'], case['kind']
+    if case.get('order') and isinstance(case.get('_err_then_ok'), bool):
+        pass
+    for s in _flat(spec):
+        if s['c'] == 'SubsettedVotes' and not s['subset']:
+            tags.add('empty_subset')
+        if s['c'] in ('IndividualToPartyVotes', 'GroupVotesByParty'):
+            mapped = {c for c, _ in s['aff']}
+            keys = {k for k, _ in case['AB']} if kind == 'simple' else set()
+            if keys - mapped:
+                tags.add('unmapped_candidate')
+            tags.add('independents:' + s['independents'])
+            tags.add('affiliation:' + s.get('affiliation', 'candidacy_for'))
+        if s['c'] == 'RankedToPositionalVotes':
+            sc = s['scorer']
+            if sc['s'] == 'Borda' and sc['base'] != 1:
+                tags.add('borda_base_nondefault')
+            if sc['s'] == 'Geometric' and sc['base'] not in (2,):
+                tags.add('geometric_base_nondefault')
+            if sc['s'] == 'Geometric' and sc['base'] == 10:
+                tags.add('geometric_base_10')
+            if sc['s'] == 'SequenceBased' and kind == 'ranked' and \
+                    any(len(b) > len(sc['sequence']) for b, _ in case['AB']):
+                tags.add('sequence_shorter_than_ballot')
+            if sc['s'] == 'ModifiedBorda' and kind == 'ranked' and len({len(b) for b, _ in case['AB'] if b}) >= 2:
+                tags.add('modified_borda_mixed_lengths')
+        if s['c'] == 'ScoreToRankedVotes' and s.get('unscored_value') is not None and kind == 'score':
+            uv = Fraction(s['unscored_value'])
+            if uv < 0:
+                tags.add('unscored_negative')
+            if uv == 0:
+                tags.add('unscored_zero')
+            if others and uv > max(others):
+                tags.add('unscored_above_scores')
+    if kind == 'ranked':
+        items = [it for b, _ in case['AB'] for it in b]
+        if any(isinstance(it, dict) and len(it['set']) >= 3 for it in items):
+            tags.add('shared_rank_3plus')
+        single = {it for it in items if not isinstance(it, dict)}
+        inset = {c for it in items if isinstance(it, dict) for c in it['set']}
+        if inset - single:
+            tags.add('candidate_only_in_shared_ranks')
+    # the converter raised on one conversion and is used again afterwards
+    case['_tags'] = sorted(tags)
+    return case
+
+
+def balanced(rng, per):
+    """a fixed number of cases for every configuration value, so that none is effectively unsampled"""
+    for sname in SCORERS:
+        for _ in range(per):
+            c = gen_case(rng, 'RankedToPositionalVotes')
+            c['conv']['scorer'] = rnd_scorer(rng, sname)
+            yield tag_case(c)
+    for meth in ROUND_METHODS:
+        for _ in range(per):
+            c = gen_case(rng, 'RoundedVotes')
+            c['conv']['round_method'] = meth
+            yield tag_case(c)
+    for conv in ('IndividualToPartyVotes', 'GroupVotesByParty'):
+        for mode in ('aggregate', 'keep', 'ignore', 'error'):
+            for _ in range(max(per // 2, 8)):
+                c = gen_case(rng, conv)
+                c['conv']['independents'] = mode
+                yield tag_case(c)
+    for names, kind in CHAINS:
+        for _ in range(max(per // 4, 4)):
+            m = rng.randint(2, 5)
+            cs = [rnd_spec(rng, n, m)[0] for n in names]
+            for x in cs:
+                if x['c'] == 'ApprovalToSimpleVotes':
+                    x['split'] = False
+                if x['c'] in ('IndividualToPartyVotes',):
+                    x['independents'] = rng.choice(['aggregate', 'keep', 'ignore'])
+            spec = {'c': 'Chain', 'cs': cs}
+            if kind == 'nested':
+                A, B = rnd_nested(rng, m)
+            else:
+                A, B = split(rng, rnd_ballots(rng, kind, m, rng.randint(1, 6)))
+                if any(n in UNIVERSE_DEPENDENT for n in names):
+                    cover(rng, kind, A, B, m)
+            if 'RoundedVotes' in names:
+                A = [[k, w if abs(Fraction(w)) < 10 ** 20 else '3'] for k, w in A]
+                B = [[k, w if abs(Fraction(w)) < 10 ** 20 else '3'] for k, w in B]
+            yield finish(spec, kind, A, B, ['balanced', 'chain:' + '>'.join(n[:14] for n in names)])
+    for _ in range(per):
+        # Borda refuses half A (a ballot with more places than candidates) and then serves B and A+B's singles
+        m = rng.randint(2, 4)
+        c0 = rng.randrange(m)
+        A = [[[c0] * rng.randint(2, 3) + [x for x in range(m) if x != c0][:rng.randint(0, 1)] * 0, rnd_weight(rng)]]
+        B = [[b, rnd_weight(rng)] for b in rnd_ballots(rng, 'ranked', m, rng.randint(1, 3)) if len(b) <= 1]
+        B.append([list(range(m)), rnd_weight(rng)])
+        yield finish({'c': 'RankedToPositionalVotes', 'scorer': {'s': 'Borda', 'base': rng.choice([1, 0, 2])}}, 'ranked', A, B,
+                     ['balanced', 'error_then_valid'])
+    for k in SUBSETTERS:
+        got = 0
+        for _ in range(per * 8):
+            c = gen_case(rng, 'SubsettedVotes')
+            if c['conv']['subsetter'] == k and got < per // 2:
+                got += 1
+                yield c
+
+
+def directed_dimensions(rng):
+    """generator-audit dimensions (harness/GENERATOR_CHECKLIST.md), each on purpose"""
+    RA = [[[0, 1, 2], '2'], [[{'set': [0, 1]}, 2], '3'], [[2], '1/2']]
+    RB = [[[0, 1, 2], '5'], [[2, 1, 0], '1'], [[], '4'], [[{'set': [0, 1, 3]}], '2']]
+    SA = [[{'set': [[0, '1'], [1, '1'], [2, '3']]}, '2'], [{'set': []}, '1']]
+    SB = [[{'set': [[0, '5'], [1, '5'], [2, '9']]}, '3'], [{'set': [[1, '2']]}, '1'], [{'set': [[0, '1'], [1, '1'], [2, '3']]}, '1/2']]
+    AA = [[{'set': [0, 1]}, '2'], [{'set': [1]}, '1']]
+    AB_ = [[{'set': [0, 1]}, '3'], [{'set': [0, 1, 2]}, '1/2'], [{'set': []}, '1']]
+    ranked_specs = [{'c': 'RankedToPositionalVotes', 'scorer': {'s': 'Borda', 'base': 1}},
+                    {'c': 'RankedToPositionalVotes', 'scorer': {'s': 'Dowdall'}},
+                    {'c': 'RankedToCondorcetVotes', 'unranked_at_bottom': True}, {'c': 'RankedToFirstPreference'},
+                    {'c': 'RankedToFirstNPreferences', 'n': 2}, {'c': 'RankedToPresenceCounts'}, {'c': 'RankedToApprovalVotes'},
+                    {'c': 'SubsettedVotes', 'subsetter': 'ranked', 'subset': [0, 2], 'depth': 0}]
+    # candidate object kinds: ints incl. 0, the empty string, Person objects by identity
+    for nm in NAME_KINDS[1:]:
+        for sp in ranked_specs:
+            yield vary(finish(dict(sp), 'ranked', RA, RB, ['directed']), rng, names=nm, num='auto', order=False, warm=False)
+        for sp in ({'c': 'ScoreToRankedVotes', 'unscored_value': '0'}, {'c': 'ScoreToApprovalVotesThreshold', 'threshold': '1'},
+                   {'c': 'SubsettedVotes', 'subsetter': 'score', 'subset': [0, 2], 'depth': 0}):
+            yield vary(finish(dict(sp), 'score', SA, SB, ['directed']), rng, names=nm, num='auto', order=False, warm=False)
+        for sp in ({'c': 'ApprovalToSimpleVotes', 'split': False}, {'c': 'InvertedApprovalVotes'},
+                   {'c': 'SubsettedVotes', 'subsetter': 'approval', 'subset': [0], 'depth': 0}):
+            yield vary(finish(dict(sp), 'approval', AA, AB_, ['directed']), rng, names=nm, num='auto', order=False, warm=False)
+        yield vary(finish({'c': 'VoteTotals'}, 'nested', [[0, [[0, '2'], [1, '1']]]], [[0, [[0, '3']]], [1, [[2, '1']]]], ['directed']),
+                   rng, names=nm, num='auto', order=False, warm=False, dclash=True)
+        yield vary(finish({'c': 'SubsettedVotes', 'subsetter': 'simple', 'subset': [0], 'depth': 0}, 'simple',
+                          [[0, '2'], [1, '1']], [[0, '3'], [2, '1']], ['directed']), rng, names=nm, num='auto', order=False, warm=False)
+        yield vary({'op': 'util', 'votes': [[[0, 1, 2], '2'], [[2], '1'], [[1, 0], '1/2']], '_tags': ['util']}, rng, names=nm)
+    # numeric type of the counts: Fraction / Decimal (short and 7 decimals) / dyadic float, falsy zeros, magnitudes
+    WA = [[[0, 1], '0'], [[1, 0], '5/4'], [[2], '3']]
+    WB = [[[0, 1], '1234567/10000000'], [[1], '0'], [[0, 2, 1], '1/8']]
+    for mode in NUM_MODES[1:]:
+        for sp in ({'c': 'RankedToFirstPreference'}, {'c': 'RankedToCondorcetVotes', 'unranked_at_bottom': True},
+                   {'c': 'RankedToPresenceCounts'}, {'c': 'RankedToApprovalVotes'}):
+            yield vary(finish(dict(sp), 'ranked', WA, [e for e in WB if mode != 'float' or e[1] != '1234567/10000000'], ['directed']),
+                       rng, names='str', num=mode, order=False, warm=False)
+        yield vary(finish({'c': 'ScoreToApprovalVotesThreshold', 'threshold': '5/4'}, 'score',
+                          [[{'set': [[0, '5/4'], [1, '1/8']]}, '0'], [{'set': [[2, '3']]}, '1/2']],
+                          [[{'set': [[0, '5/4'], [1, '1/8']]}, '1/4'], [{'set': [[1, '2']]}, '0']], ['directed']),
+                   rng, names='str', num=mode, order=False, warm=False)
+    yield vary(finish({'c': 'RankedToPositionalVotes', 'scorer': {'s': 'Dowdall'}}, 'ranked', WA, WB, ['directed']),
+               rng, names='str', num='frac', order=False, warm=False)
+    yield vary(finish({'c': 'ApprovalToSimpleVotes', 'split': True}, 'approval', [[{'set': [0, 1]}, '0'], [{'set': [1]}, '3']],
+                      [[{'set': [0, 1]}, '2'], [{'set': [2]}, '0']], ['directed']), rng, names='str', num='frac', order=False, warm=False)
+    BIG = [2 ** 53, 2 ** 53 + 1, 10 ** 18 + 1, 10 ** 30, 10 ** 400 + 7]
+    for sp in ranked_specs[:4]:
+        yield vary(finish(dict(sp), 'ranked', [[[0, 1, 2], ns(BIG[1])], [[1, 0], ns(BIG[4])]],
+                          [[[0, 1, 2], ns(BIG[0])], [[2, 1, 0], ns(BIG[3])], [[1], ns(BIG[2])]], ['directed']),
+                   rng, names='str', num='auto', order=False, warm=False)
+    for sp in ({'c': 'ScoreToRankedVotes', 'unscored_value': ns(2 ** 53)}, {'c': 'ScoreToApprovalVotesThreshold', 'threshold': ns(2 ** 53 + 1)}):
+        yield vary(finish(dict(sp), 'score', [[{'set': [[0, ns(2 ** 53)], [1, ns(2 ** 53 + 1)], [2, ns(2 ** 53 - 1)]]}, '2']],
+                          [[{'set': [[0, '1'], [1, '1000000000001/1000000000000'], [3, '999999999999/1000000000000']]}, '3']], ['directed']),
+                   rng, names='str', num='auto', order=False, warm=False)
+    # every scorer parameter non-default, sequences shorter than the ballots, ModifiedBorda with mixed lengths
+    for sc in ({'s': 'Borda', 'base': 0}, {'s': 'Borda', 'base': 2}, {'s': 'Borda', 'base': -1}, {'s': 'Geometric', 'base': 3},
+               {'s': 'Geometric', 'base': 10}, {'s': 'FixedTop', 'top': 2}, {'s': 'FixedTop', 'top': 5},
+               {'s': 'SequenceBased', 'sequence': ['12']}, {'s': 'SequenceBased', 'sequence': ['5', '3']},
+               {'s': 'SequenceBased', 'sequence': []}, {'s': 'ModifiedBorda'}):
+        for od in ('asc', 'desc'):
+            yield vary(finish({'c': 'RankedToPositionalVotes', 'scorer': dict(sc)}, 'ranked', RA, RB, ['directed']),
+                       rng, names='str', num='auto', order=od, warm=(od == 'asc'))
+    # the converter refuses one profile and is used again (Borda: more ranks than candidates in A only)
+    yield vary(finish({'c': 'RankedToPositionalVotes', 'scorer': {'s': 'Borda', 'base': 1}}, 'ranked',
+                      [[[0, 0], '2']], [[[0, 1], '1'], [[1], '3']], ['directed', 'error_then_valid']),
+               rng, names='str', num='auto', order=False, warm=False)
+    yield vary(finish({'c': 'ApprovalToSimpleVotes', 'split': True}, 'approval',
+                      [[{'set': []}, '2']], [[{'set': [0, 1]}, '1'], [{'set': [1]}, '3']], ['directed', 'error_then_valid']),
+               rng, names='str', num='auto', order=False, warm=False)
+    # unscored value: zero / negative / above every explicit score
+    for uv in ('0', '-3', '7'):
+        for od in (False, 'desc'):
+            yield vary(finish({'c': 'ScoreToRankedVotes', 'unscored_value': uv}, 'score', SA, SB + [[{'set': [[3, '4']]}, '2']],
+                              ['directed']), rng, names='str', num='auto', order=od, warm=bool(od))
+    # an empty subset with every subsetter, at depth 0-2
+    for k, kind, A, B in (('simple', 'simple', [[0, '2'], [1, '1']], [[0, '3']]), ('approval', 'approval', AA, AB_),
+                          ('ranked', 'ranked', RA, RB), ('score', 'score', SA, SB)):
+        yield vary(finish({'c': 'SubsettedVotes', 'subsetter': k, 'subset': [], 'depth': 0}, kind, A, B, ['directed']),
+                   rng, names='str', num='auto', order=False, warm=True)
+    yield vary(finish({'c': 'SubsettedVotes', 'subsetter': 'simple', 'subset': [], 'depth': 1}, 'nested',
+                      [[0, [[0, '2'], [1, '1']]]], [[0, [[0, '3']]], [1, [[2, '1']]]], ['directed']), rng, names='str', num='auto',
+               order=False, warm=False, dclash=True)
+    yield vary(finish({'c': 'SubsettedVotes', 'subsetter': 'simple', 'subset': [0, 1], 'depth': 2}, 'deep',
+                      [[0, [[0, [[0, '2'], [1, '1']]]]]], [[0, [[0, [[0, '3']]], [1, [[1, '1/3']]]]]], ['directed']),
+               rng, names='str', num='auto', order='desc', warm=False, dclash=True)
+    yield vary(finish({'c': 'ConstituencyTotals'}, 'nested', [[0, [[0, '2'], [1, '1']]]], [[0, [[0, '3']]], [1, [[2, '1']]]], ['directed']),
+               rng, names='str', num='auto', order=False, warm=False, dclash=True)
+    # party mappers: candidates missing from the mapping, every independents mode, both affiliation attributes
+    for conv in ('IndividualToPartyVotes', 'GroupVotesByParty'):
+        for mode in ('aggregate', 'keep', 'ignore', 'error'):
+            for attr in ('candidacy_for', 'membership'):
+                yield vary(finish({'c': conv, 'aff': [[0, 1], [1, 1], [3, 0]], 'independents': mode, 'affiliation': attr}, 'simple',
+                                  [[0, '2'], [2, '1'], [3, '0']], [[1, '3'], [4, '1/2'], [2, '0']], ['directed']),
+                           rng, names='str', num='auto', order=rng.choice(['asc', 'desc']), warm=True)
+    # shared ranks of three and more; a candidate that only ever occurs inside shared ranks
+    for sp in ranked_specs:
+        yield vary(finish(dict(sp), 'ranked', [[[{'set': [0, 1, 2]}, 3], '2'], [[3, {'set': [0, 1, 2, 4]}], '1']],
+                          [[[{'set': [1, 2, 4]}, {'set': [0, 3]}], '3'], [[3], '1']], ['directed']),
+                   rng, names='str', num='auto', order=False, warm=False)
 
 
 def directed(rng):
@@ -1442,17 +1848,20 @@ def directed(rng):
                  [[[0, 1], '2']], [[[1, 0], '3']], ['directed'])
     yield finish({'c': 'RankedToFirstPreference'}, 'ranked', [[[0, 1], '1/2'], [[1], '3']], [[[0, 2], '5/4'], [[0, 1], '1/4']],
                  ['directed'], dec=True)
+    yield from directed_dimensions(rng)
     for votes in ([[[0, 1, 2], '2'], [[2], '1'], [[1, 3], '1/2']], [[[{'set': [1]}, 0], '1'], [[], '3'], [[2, 0, 1], '2']]):
         yield {'op': 'util', 'votes': votes, '_tags': ['util']}
 
 
 def generate(rng, tier):
     yield from directed(rng)
-    N = 3500 if tier == 'quick' else 60000
+    N = 3000 if tier == 'quick' else 60000
     for _ in range(N):
-        yield gen_case(rng)
+        yield vary(gen_case(rng), rng)
+    for c in balanced(rng, 30 if tier == 'quick' else 300):
+        yield vary(c, rng)
     for _ in range(60 if tier == 'quick' else 4000):
-        yield gen_case(rng, tags=['big'], big=True)
+        yield vary(gen_case(rng, tags=['big'], big=True), rng)
     for _ in range(80 if tier == 'quick' else 3000):     # nested dictionaries of depth 1-3
         m = rng.randint(2, 5)
         dp = rng.choice([1, 2, 2, 3])
@@ -1461,16 +1870,16 @@ def generate(rng, tier):
             spec['defaults'] = True
         if dp == 1:
             A, B = rnd_nested(rng, m)
-            yield finish(spec, 'nested', A, B, ['deep'], dec=rng.random() < 0.3)
+            yield vary(finish(spec, 'nested', A, B, ['deep'], dec=rng.random() < 0.3), rng)
         else:
-            yield finish(spec, 'deep', rnd_deep(rng, m, dp), rnd_deep(rng, m, dp), ['deep'], dec=rng.random() < 0.3)
+            yield vary(finish(spec, 'deep', rnd_deep(rng, m, dp), rnd_deep(rng, m, dp), ['deep'], dec=rng.random() < 0.3), rng)
     for _ in range(40 if tier == 'quick' else 2000):
         m = rng.randint(2, 4)
         bs = []
         for b in rnd_ballots(rng, 'ranked', m, rng.randint(1, 5)):
             # set iteration order inside a shared rank is not observable: keep shared ranks one-element here
             bs.append([it if not isinstance(it, dict) or len(it['set']) <= 1 else it['set'][0] for it in b])
-        yield {'op': 'util', 'votes': dedupe([[b, rnd_weight(rng)] for b in bs]), '_tags': ['util']}
+        yield vary({'op': 'util', 'votes': dedupe([[b, rnd_weight(rng)] for b in bs]), '_tags': ['util']}, rng)
     if tier == 'thorough':
         yield from exhaustive()
 
@@ -1515,9 +1924,24 @@ def shrink_candidates(case):
         for i in range(len(h)):
             other = 'B' if half == 'A' else 'A'
             new = {half: h[:i] + h[i + 1:], other: case[other]}
-            yield finish(case['conv'], case['kind'], new['A'], new['B'], [], dec=bool(case.get('dec')))
+            yield _carry(case, finish(case['conv'], case['kind'], new['A'], new['B'], []))
     if case['conv']['c'] == 'Chain' and len(case['conv']['cs']) > 1:
-        yield finish({'c': 'Chain', 'cs': case['conv']['cs'][:-1]}, case['kind'], case['A'], case['B'], [])
+        yield _carry(case, finish({'c': 'Chain', 'cs': case['conv']['cs'][:-1]}, case['kind'], case['A'], case['B'], []))
+    for k in ('warm', 'order', 'names', 'num', 'dclash'):
+        if k in case:
+            c = dict(case)
+            del c[k]
+            yield c
+
+
+def _carry(old, new):
+    for k in ('names', 'order', 'warm', 'dclash'):
+        if k in old:
+            new[k] = old[k]
+    mode = old.get('num') or ('dec' if old.get('dec') else None)
+    if mode and num_mode_ok(new, mode):
+        new['num'] = mode
+    return new
 
 
 TECHNIQUE = ('Lean 4 proofs that each converter model is the weighted sum of per-ballot images over a fixed candidate universe '
